@@ -1354,6 +1354,31 @@ def gen_simd_kernels(repo):
     sk = ' ; '.join('%s(%s)' % (c, ' '.join(a.split())) for c, a in calls)
     out += '/-- %s: vert_convolution_into_one_row: every intrinsic / helper call with its arguments, in textual order -/\n' % f
     out += 'def vert_u8_sse4_skeleton : String := "%s"\n\n' % sk.replace('"', '\\"')
+    # the SSE4.1 vertical pass for 16-bit components: i64 accumulators, `_mm_mul_epi32`, four shuffle masks
+    f16 = 'src/convolution/vertical_u16/sse4.rs'
+    with open(os.path.join(repo, f16)) as fh:
+        src16 = fh.read()
+    m16 = re.search(r'unsafe fn vert_convolution_into_one_row_u16<.*?\n\}', src16, re.S) or re.search(r'unsafe fn vert_convolution_into_one_row\w*<.*?\n\}', src16, re.S)
+    if not m16:
+        raise TranslationError("%s: row kernel not found" % f16)
+    body16 = re.sub(r'//[^\n]*', '', m16.group(0))
+    body16 = re.sub(r'/\*.*?\*/', '', body16, flags=re.S)
+    ms = re.search(r'let c_shuffles = \[(.*?)\];', body16, re.S)
+    if not ms:
+        raise TranslationError("%s: c_shuffles not found" % f16)
+    cs = re.findall(r'_mm_set_epi8\(([^()]*?)\)', ms.group(1), re.S)
+    if len(cs) != 4:
+        raise TranslationError("%s: expected 4 shuffle masks in c_shuffles, found %d" % (f16, len(cs)))
+    for i, a in enumerate(cs):
+        vals = list(reversed([int(x) for x in a.replace('\n', ' ').split(',') if x.strip()]))
+        if len(vals) != 16:
+            raise TranslationError("%s: c_shuffles[%d] does not have 16 entries" % (f16, i))
+        out += '/-- %s: c_shuffles[%d], byte 0 first -/\n' % (f16, i)
+        out += 'def vert_u16_sse4_sh%d : List Int := [%s]\n\n' % (i, ', '.join(str(x) if x >= 0 else '(%d)' % x for x in vals))
+    calls16 = re.findall(r'\b(_mm_\w+(?:::<\w+>)?|simd_utils::\w+|chunks_exact_mut|chunks_exact|into_remainder|remainder|first|iter_2_rows|iter_rows|normalizer\.clip|convolution_by_u16)\(([^()]*(?:\([^()]*\)[^()]*)*)\)', body16)
+    sk16 = ' ; '.join('%s(%s)' % (c, ' '.join(a.split())) for c, a in calls16 if not c.endswith('set_epi8'))
+    out += '/-- %s: the row kernel: every intrinsic / helper call with its arguments, in textual order -/\n' % f16
+    out += 'def vert_u16_sse4_skeleton : String := "%s"\n\n' % sk16.replace('"', '\\"')
     # ... and its AVX2 twin: 256-bit in-lane instructions for the 32-component step, the SSE4.1 code for 8 and 4
     f = 'src/convolution/vertical_u8/avx2.rs'
     with open(os.path.join(repo, f)) as fh:
